@@ -305,7 +305,7 @@ def check(pid, tier, seed, replay=None):
         rejected_ids = []
         for ri, k, e, sig in bads:
             s, obs_lines, _ = recs[ri]
-            if e["a"] not in OWN_EVENTS[pid]:
+            if e["a"] not in OWN_EVENTS[pid] and not (pid == "C12" and e["a"] == "CloseRet" and sig == "Undelivered"):
                 other += 1
                 continue
             rejected_ids.append(s["id"])
